@@ -147,3 +147,46 @@ func ZZSeqPut(kind, two int) {
 	vAssert("exactly-the-new-records-added", len(m.ents) == before+len(res.Puts)+2)
 	vReach("end")
 }
+
+var zzDashPrefixes = []string{"t-1", "a-b", "x-", "p-00000000000000000001"}
+
+// ZZSeqDashPrefix (C16): the same exact-arithmetic check for prefixes that themselves contain '-' or digits (the
+// suffix separator and the suffix alphabet): the current highest key of prefix P is P-…05 (one suffix) or
+// P-…05-…07 (two); the generated key is P followed by current + delta per suffix — the prefix is cut off as a
+// literal prefix, not character-wise — hence strictly greater and never an existing record's key.
+func ZZSeqDashPrefix(pi, two, nd int) {
+	pfx := zzDashPrefixes[pi]
+	m := &zzKV{}
+	last := []uint64{5}
+	key := pfx + "-00000000000000000005"
+	if two == 1 {
+		last = []uint64{5, 7}
+		key += "-00000000000000000007"
+	}
+	zzStore(m, "o", zzRec{true, 0, 0, 5})
+	zzStore(m, key, zzRec{true, 2, 0, 5})
+	pk := "pk"
+	req := &proto.PutRequest{Key: pfx, Value: []byte("v"), PartitionKey: &pk}
+	for i := 0; i < nd; i++ {
+		d := vUint64("delta")
+		vAssume(d < 1<<62) // wrap-around is KF-C16-delta-wraps, checked by ZZSeqGenerate
+		req.SequenceKeyDelta = append(req.SequenceKeyDelta, d)
+	}
+	vAssume(req.SequenceKeyDelta[0] > 0)
+	batch := m.NewWriteBatch()
+	newKey, err := generateUniqueKeyFromSequences(batch, req)
+	if nd < len(last) {
+		vAssert("fewer-deltas-than-suffixes-rejected", err == ErrMissingSequenceDeltas)
+		vReach("end")
+		return
+	}
+	vAssert("generated", err == nil)
+	for i := 0; i < nd; i++ {
+		var cur uint64
+		if i < len(last) {
+			cur = last[i]
+		}
+		vAssert("suffix=current+delta", vSeqPart(newKey, pfx, i) == cur+req.SequenceKeyDelta[i])
+	}
+	vReach("end")
+}
